@@ -380,7 +380,7 @@ class Fn:
                 return None
         return None
 
-    def reachable_flag_sensitive(self, start, env=None):
+    def reachable_flag_sensitive(self, start, env=None, avoid=()):
         """Blocks reachable from `start`, pruning switch edges that contradict the known value of a boolean flag
         local (a local only ever assigned literal true/false)."""
         flags = self.flag_locals()
@@ -390,7 +390,7 @@ class Fn:
         st = [(start, init)]
         while st:
             b, e = st.pop()
-            if (b, e) in seen:
+            if (b, e) in seen or b in avoid:
                 continue
             seen.add((b, e))
             out.add(b)
@@ -1050,9 +1050,15 @@ class Effect:
 
 
 def effect_sites(P, fn, eff):
+    """Sites of fn that perform the effect on every success path through the callee (must), not merely somewhere (may)."""
     if eff.sites is not None:
         return eff.sites(fn)
-    return [s for s in P.sites_calling(fn, eff.pred, transitive=True, include_closure_construction=False)]
+    out = []
+    for s in P.sites_calling(fn, eff.pred, transitive=True, include_closure_construction=False):
+        t = fn.blocks[s.b]["term"]
+        if site_must_perform(P, fn, s.b, t, eff.pred):
+            out.append(s)
+    return out
 
 
 def site_callee_fn(P, site):
@@ -1061,6 +1067,43 @@ def site_callee_fn(P, site):
     if site.i != TERM or t["k"] != "call":
         return None
     return P.fn(callee_of(t))
+
+
+def must_perform(P, fn, pred, depth=0, _memo=None):
+    """Every normal return of `fn` that is not an error exit is preceded, on every path, by a call that must perform `pred`
+    (the primitive itself, or a local callee for which this holds recursively).  dyn / external callees satisfying
+    call_reaches are accepted as performing it (their bodies are not visible)."""
+    _memo = _memo if _memo is not None else {}
+    if fn.path in _memo:
+        return _memo[fn.path]
+    _memo[fn.path] = False
+    if depth > 6:
+        return False
+    sites = []
+    for b, t in fn.calls():
+        if site_must_perform(P, fn, b, t, pred, depth, _memo):
+            sites.append(Site(fn, b))
+    rets = return_sites(fn)
+    targets = [s for s, k in rets if k in ("ok", "other", "tail")]
+    if not rets:
+        # unit functions: the return block itself
+        targets = [Site(fn, b, -1) for b in fn.reachable() if fn.blocks[b]["term"]["k"] == "return"]
+    if not targets:
+        targets = [Site(fn, b, -1) for b in fn.reachable() if fn.blocks[b]["term"]["k"] == "return"]
+    ok = bool(targets) and all(any(fn.dominates_block(s.b, t.b) for s in sites) for t in targets)
+    _memo[fn.path] = ok
+    return ok
+
+
+def site_must_perform(P, fn, b, t, pred, depth=0, _memo=None):
+    cal = callee_of(t)
+    if pred(cal) or pred(t["callee"]):
+        return True
+    g = P.fn(cal)
+    if g is not None:
+        return must_perform(P, g, pred, depth + 1, _memo)
+    # closure passed and invoked by an external combinator, dyn call, ...: fall back to may-reach
+    return P.call_reaches(t, pred) and "resolved" not in t
 
 
 def must_order(P, fn, effects, targets, depth=0, trace=None):
